@@ -329,6 +329,7 @@ type Ev struct {
 	Value   int64    `json:"value"`
 	Cancel  bool     `json:"cancel"`
 	Heavy   bool     `json:"heavy,omitempty"`
+	Fifo    bool     `json:"fifo"` // single producer, single consumer: the hand-off order must be the acceptance order
 	Blocked []string `json:"blocked,omitempty"`
 	Reqs    []string `json:"reqs,omitempty"`
 	Sizes   []int64  `json:"sizes,omitempty"`
@@ -597,7 +598,111 @@ func idleRound(rng *rand.Rand, round int, emit func(Ev)) bool {
 	return true
 }
 
+// backlogRound: ONE producer and ONE consumer, a large capacity, and a backlog that grows and shrinks in phases while the
+// consumer is held at a gate: offer a, let b of them through, offer c more, ... then drain.  Every accepted request must be
+// handed over exactly once IN ACCEPTANCE ORDER and the size must return to zero, whatever the backlog length was when the
+// consumer had already taken something (an item list that re-organises its storage while wrapped -- seeded change C02-7 --
+// only shows with more pending requests than its initial allotment after a first read).
+func backlogRound(rng *rand.Rand, round int, emit func(Ev)) bool {
+	cfg := Cfg{Sizer: []string{"requests", "items"}[rng.Intn(2)], Cap: 600, Block: false, WFR: false, Persistent: rng.Intn(5) == 0, Consumers: 1}
+	if cfg.Persistent {
+		cfg.Sizer = "requests"
+	}
+	var mu sync.Mutex
+	log := func(e Ev) { mu.Lock(); emit(e); mu.Unlock() }
+	tokens := make(chan struct{}, 1024)
+	var started, finished atomic.Int64
+	w := 0
+	next := func(_ context.Context, r request.Request) error {
+		<-tokens
+		mu.Lock()
+		w++
+		emit(Ev{Ev: "push_start", Req: r.(*vreq).Name, W: w})
+		mu.Unlock()
+		started.Add(1)
+		finished.Add(1)
+		return nil
+	}
+	e, err := newEnv(cfg, next)
+	if err != nil {
+		return true
+	}
+	c := cfg
+	log(Ev{Ev: "reset", Round: round, Cfg: &c, Heavy: true, Fifo: true})
+	if err := startC(func(sc context.Context) error { return e.qb.Start(sc, e.host) }); err != nil {
+		return true
+	}
+	seq, pending, released := 0, 0, 0
+	offerN := func(n int) {
+		for i := 0; i < n; i++ {
+			seq++
+			name := fmt.Sprintf("b%d", seq)
+			err := e.qb.Send(context.Background(), mkReq(name, 1, cfg.Sizer))
+			log(Ev{Ev: "offer_end", P: 1, Req: name, Res: classify(err), Size: 1})
+			if err == nil {
+				pending++
+			}
+		}
+	}
+	releaseN := func(n int) bool {
+		for i := 0; i < n; i++ {
+			tokens <- struct{}{}
+		}
+		released += n
+		for t := 0; finished.Load() < int64(released); t++ {
+			if t > 30000 {
+				log(Ev{Ev: "hang", Blocked: append([]string{fmt.Sprintf("backlog: %d requests released to the single consumer, %d handed over", released, finished.Load())}, blockedSites()...)})
+				return false
+			}
+			time.Sleep(time.Millisecond)
+		}
+		pending -= n
+		return true
+	}
+	sizes := []int{3, 7, 15, 16, 17, 31, 32, 33, 48, 63, 64, 65, 100, 129}
+	for phase := 0; phase < 4; phase++ {
+		a := sizes[rng.Intn(len(sizes))]
+		if pending+a > 500 {
+			a = 500 - pending
+		}
+		offerN(a)
+		b := 1 + rng.Intn(pending)
+		if phase == 0 && rng.Intn(2) == 0 {
+			b = 1 + rng.Intn(min(pending, 8))
+		}
+		if !releaseN(b) {
+			return false
+		}
+	}
+	if pending > 0 && !releaseN(pending) {
+		return false
+	}
+	var v int64
+	for t := 0; t < 400; t++ {
+		if v, _ = e.gauge("otelcol_exporter_queue_size"); v == 0 {
+			break
+		}
+		time.Sleep(5 * time.Millisecond)
+	}
+	log(Ev{Ev: "final_size", Value: v + 1})
+	log(Ev{Ev: "shutdown_start"})
+	done := make(chan struct{})
+	go func() { _ = e.qb.Shutdown(context.Background()); close(done) }()
+	select {
+	case <-done:
+	case <-time.After(30 * time.Second):
+		log(Ev{Ev: "hang", Blocked: blockedSites()})
+		return false
+	}
+	log(Ev{Ev: "shutdown_end"})
+	_ = e.tel.Shutdown(context.Background())
+	return true
+}
+
 func stressRound(rng *rand.Rand, round int, emit func(Ev)) bool {
+	if round%16 == 3 || round%16 == 10 {
+		return backlogRound(rng, round, emit)
+	}
 	if round%16 == 12 || round%16 == 7 {
 		return idleRound(rng, round, emit)
 	}
